@@ -56,11 +56,31 @@ pub fn truncate_text(s: &mut String, max: usize) {
 }
 
 /// text for names / units / string values: mostly short, sometimes up to `big` bytes
+/// lengths around the powers of two (and the 16-bit limits) that size-dependent code paths switch at
+const EDGE_LENGTHS: [usize; 38] = [
+    15, 16, 17, 31, 32, 33, 63, 64, 65, 127, 128, 129, 255, 256, 257, 511, 512, 513, 599, 600, 601, 1023, 1024, 1025, 4095, 4096, 4097, 8191, 8192, 16383, 16384, 32767, 32768, 32769,
+    65532, 65533, 65534, 65535,
+];
+fn edge_length(big: usize) -> BoxedStrategy<usize> {
+    let v: Vec<usize> = EDGE_LENGTHS.iter().cloned().filter(|l| *l <= big).collect();
+    if v.is_empty() {
+        Just(big).boxed()
+    } else {
+        prop::sample::select(v).boxed()
+    }
+}
 pub fn text(big: usize) -> BoxedStrategy<String> {
     prop_oneof![
-        12 => short_text(12),
-        4 => (any::<u64>(), 0usize..64, 0u8..4).prop_map(|(s, l, a)| expand_text(s, l, a)),
-        1 => (any::<u64>(), 0usize..=big, 0u8..4).prop_map(|(s, l, a)| expand_text(s, l, a)),
+        24 => short_text(12),
+        8 => (any::<u64>(), 0usize..64, 0u8..4).prop_map(|(s, l, a)| expand_text(s, l, a)),
+        2 => (any::<u64>(), 0usize..=big, 0u8..4).prop_map(|(s, l, a)| expand_text(s, l, a)),
+        // a length on / next to a power of two, the text starting with 0..3 ASCII bytes so that multi-byte characters
+        // straddle every fixed offset in some case
+        1 => (any::<u64>(), edge_length(big), 0u8..4, 0usize..4).prop_map(|(s, l, a, pre)| {
+            let mut t = "xyz"[..pre.min(l)].to_string();
+            t.push_str(&expand_text(s, l - pre.min(l), a));
+            t
+        }),
     ]
     .boxed()
 }
@@ -68,9 +88,10 @@ pub fn text(big: usize) -> BoxedStrategy<String> {
 /// raw bytes: mostly short, sometimes up to `big` bytes
 pub fn blob(big: usize) -> BoxedStrategy<Vec<u8>> {
     prop_oneof![
-        10 => vec(any::<u8>(), 0..12),
-        4 => (any::<u64>(), 0usize..64, 0u8..6).prop_map(|(s, l, a)| expand_bytes(s, l, a)),
-        1 => (any::<u64>(), 0usize..=big, 0u8..6).prop_map(|(s, l, a)| expand_bytes(s, l, a)),
+        20 => vec(any::<u8>(), 0..12),
+        8 => (any::<u64>(), 0usize..64, 0u8..6).prop_map(|(s, l, a)| expand_bytes(s, l, a)),
+        2 => (any::<u64>(), 0usize..=big, 0u8..6).prop_map(|(s, l, a)| expand_bytes(s, l, a)),
+        1 => (any::<u64>(), edge_length(big), 0u8..6).prop_map(|(s, l, a)| expand_bytes(s, l, a)),
     ]
     .boxed()
 }
